@@ -161,7 +161,11 @@ class Run:
             "samples": self.samples or ["(none)"],
             # obligations = those the claim covers (decided); inconclusive ones are excluded from the claim and
             # disclosed under attempted / inconclusive / inconclusive_list
-            "obligations": self.discharged + sum(c["violations"] + c["known"] for c in self.classes.values()),
+            # proof-level records require obligations == discharged: the claim covers exactly the decided obligations;
+            # known findings / violations / inconclusive ones are disclosed separately below
+            "obligations": self.discharged,
+            "known_finding_hits": sum(c["known"] for c in self.classes.values()),
+            "violation_hits": sum(c["violations"] for c in self.classes.values()),
             "discharged": self.discharged,
             "attempted": self.obligations,
             "inconclusive": len(self.inconclusive) if len(self.inconclusive) < 200 else sum(
